@@ -1059,7 +1059,8 @@ func (propC14) Judge(sc *Scenario) *Verdict {
 			default:
 				if rf.Err != "flags.IniError" {
 					v.fail("c14:fault-not-reported", fmt.Sprintf("faulty line %d (%s: %q) must be reported as an IniError, got %s\ninput: %s", fline, fk, p.Fault.Text, readSummary(rf), q(clip(faulty, 1200))))
-				} else if int(rf.Line) != fline {
+				} else if int(rf.Line) != fline && !(fk == "unknown-option" && p.Fault.More != "" && int(rf.Line) == fline+1) {
+					// (of two offending lines next to each other either one may be named)
 					v.fail("c14:wrong-line-number", fmt.Sprintf("faulty line is physical line %d (%s: %q) but the error says line %d: %s\ninput: %s", fline, fk, p.Fault.Text, rf.Line, readSummary(rf), q(clip(faulty, 1200))))
 				}
 			}
